@@ -168,6 +168,25 @@ func c17Guid(c *hx.Ctx, g util.EFIGUID, wireToo bool) {
 					return
 				}
 			}
+			// a GUID as the partition signature of a hard-drive node (signature type 2): stored in the same
+			// layout whatever the partition-format field next to it says, and rendered as its canonical text
+			for _, pf := range []uint8{0, 1, 2, 3, 0xff} {
+				hd := dpgen.Node{Kind: "HD", PartNum: 1, Start: 0x800, Size: 0x1000, MBRType: pf, SigType: 2, Sig: w}
+				nodes, err := device.ParseDevicePath(bytes.NewReader(append(hd.Bytes(), dpgen.End...)))
+				if err != nil || len(nodes) != 1 {
+					bad("hard-drive node with a GUID signature does not decode", fmt.Sprint(err), g)
+					return
+				}
+				h, isH := nodes[0].(device.HardDriveMediaDevicePath)
+				if !isH || h.PartitionSignature != w {
+					bad("GUID signature of a hard-drive node is not kept in wire layout", fmt.Sprint(nodes[0]), hx8(w[:]))
+					return
+				}
+				if txt := h.Format(); !strings.Contains(strings.ToLower(txt), refFormat(g)) {
+					bad(fmt.Sprintf("GUID signature of a hard-drive node (partition format %d) is not rendered as the GUID's text", pf), txt, refFormat(g))
+					return
+				}
+			}
 			// the method twins of the package-level writers
 			if tb := (&signature.SignatureData{Owner: g, Data: []byte{1}}).Bytes(); len(tb) < 16 || !bytes.Equal(tb[:16], w[:]) {
 				bad("SignatureData.Bytes(): signature owner is not Data1..3 little-endian + Data4 on the wire", hx8(tb), hx8(w[:]))
